@@ -171,6 +171,9 @@ func C02(e *core.Env) {
 					fmt.Fprintf(&b, "  p%d-nest:\n    targetClass: ex.T\n    propertyConstraints:\n      %s:\n        nested:\n          propertyConstraints:\n            ex.nosuchproperty:\n              minCount: 1\n", i, ps)
 				}
 				cb = &compiledBatch{profile: b.String()}
+				if tcFor(e).check("C02 batch", cb.profile) {
+					res.Count("whole-module-text=equal")
+				}
 				cb.q, cb.err = pkg.CompileProfile(cb.profile, false, nil)
 				cache[start] = cb
 			}
